@@ -83,6 +83,22 @@ impl Time {
     pub fn secs(&self) -> u64 {
         (self.inner / 1_000_000_000.to_fixed::<U96F32>()).to_num()
     }
+    /// Add a (possibly negative) duration, or `None` if the result would lie
+    /// before the origin of the timescale or beyond its range
+    pub(crate) fn checked_add(self, rhs: Duration) -> Option<Time> {
+        let inner = if rhs.nanos().is_negative() {
+            self.inner.checked_sub(rhs.nanos().unsigned_abs())?
+        } else {
+            self.inner.checked_add(rhs.nanos().unsigned_abs())?
+        };
+        Some(Time { inner })
+    }
+
+    /// Subtract a (possibly negative) duration, see [`Time::checked_add`]
+    pub(crate) fn checked_sub(self, rhs: Duration) -> Option<Time> {
+        self.checked_add(-rhs)
+    }
+
     // Get the subnanosecond amount
     pub(crate) fn subnano(&self) -> crate::datastructures::common::TimeInterval {
         let inter: U112F16 = self.inner.frac().lossy_into();
